@@ -26,6 +26,10 @@ type DB struct {
 	// and right after ("post") each commit. It runs in the caller's
 	// goroutine and must not block.
 	Hook func(k int64, phase string)
+	// TxHook, if set, is called inside the transaction right before its
+	// commit (after the caller's function returned nil). It must only
+	// read.
+	TxHook func(k int64, tx walletdb.ReadWriteTx)
 }
 
 func Wrap(db walletdb.DB) *DB { return &DB{DB: db} }
@@ -48,7 +52,11 @@ func (d *DB) Update(f func(tx walletdb.ReadWriteTx) error, reset func()) error {
 		d.FailNext--
 	}
 	hook := d.Hook
+	txHook := d.TxHook
 	d.mu.Unlock()
+	if txHook != nil && !fail {
+		txHook(k, tx)
+	}
 	if fail {
 		_ = tx.Rollback()
 		return ErrInjected
